@@ -185,6 +185,7 @@ def process_unit(template):
     origins = [o for _, o in u.out]
     res["path"] = path
     res["rewrites"] = u.log
+    res["dropped_hints"] = list(getattr(u, "dropped_hints", []))
     res["fn_meta"] = u.fns
     trusted, bad = scan_trusted(lines)
     res["trusted_base"] = trusted
@@ -278,6 +279,15 @@ def process_unit(template):
     if res["status"] == "ok" and vr.get("encountered-error") and not res["errors"]:
         res["status"] = "undecided"
         res["undecided"] = "verus failed without a verification diagnostic: %s" % err[-600:]
+    # a function that lost a proof hint (anchor not found) and does not verify without it is not decided: the failure may be
+    # nothing but the missing hint
+    if res["status"] == "ok" and res["errors"] and res.get("dropped_hints"):
+        lost_fns = {fn for fn, _ in res["dropped_hints"]}
+        bad = [e for e in res["errors"] if e.get("fn") and e["fn"]["name"] in lost_fns]
+        if bad:
+            res["status"] = "undecided"
+            res["undecided"] = "extract: anchor lost: %s in %s (and the proof does not go through without the hint)" % (
+                "; ".join(d for _, d in res["dropped_hints"])[:300], ", ".join(sorted(lost_fns)))
     # --- canary: every contracted (mode=body) function must FAIL in the canary copy
     res["canary_ok"] = True
     res["vacuous"] = []
